@@ -138,13 +138,14 @@ fn run_mixed(rec: &mut Recorder, w: &mut World, tier: &str, rng: &mut Rng) {
     let m = ModelDef { r: vec![("r".into(), rt.clone())], p: vec![("p".into(), rt.clone())], g: vec![("g".into(), 3), ("g2".into(), 2)],
         e: vec![("e".into(), E_ALLOW.into())], m: vec![("m".into(), mx.sexpr(), mx.text("r", &rt, "p", &rt))], tbl: vec![] };
     let names = ["a", "b", "c", "d"];
-    let doms = ["t1", "t2"];
     let n_hist = (if tier == "thorough" { 1500 } else { 150 }) * rec.budget as usize;
     for hi in 0..n_hist {
         rec.begin();
+        // the second domain is, in every other history, an unusual but valid name: empty, blank-only, "*", blank-edged
+        let doms: [&str; 2] = ["t1", if hi % 2 == 0 { "t2" } else { *rng.pick(&["", "", " ", "*", "t1 "]) }];
         let mut lines: Vec<Vec<String>> = vec![];
         let mut pr: Vec<Vec<String>> = vec![];
-        for (s, o) in [("c", "c"), ("d", "d"), ("a", "b")] { let rule = sv(&[s, "t1", o, "read"]); let mut l = sv(&["p", "p"]); l.extend(rule.clone()); lines.push(l); pr.push(rule); }
+        for (s, t, o) in [("c", doms[0], "c"), ("d", doms[0], "d"), ("a", doms[0], "b"), ("a", doms[1], "b"), ("c", doms[1], "c")] { let rule = sv(&[s, t, o, "read"]); let mut l = sv(&["p", "p"]); l.extend(rule.clone()); lines.push(l); pr.push(rule); }
         new_enforcer(rec, w, &m, "memory", &lines, "", false);
         let mut descr = vec![];
         let (mut g1, mut g2) = (RefLinks::default(), RefLinks::default());
@@ -152,12 +153,15 @@ fn run_mixed(rec: &mut Recorder, w: &mut World, tier: &str, rng: &mut Rng) {
             let first = rng.chance(1, 2);
             let mut rule = sv(&[*rng.pick(&names), *rng.pick(&names)]);
             if first { rule.push(rng.pick(&doms).to_string()); }
+            // a rule of the two-place definition may carry an extra field (ignored by it) that happens to be a domain name
+            else if rng.chance(1, 4) { rule.push(rng.pick(&doms).to_string()); rec.count("rule:longer-than-definition"); }
             let def = if first { "g" } else { "g2" };
             let op = match rng.below(8) { 0..=4 => MOp::Add("g".into(), def.into(), rule), 5 | 6 => MOp::Rm("g".into(), def.into(), rule), _ => MOp::RmF("g".into(), def.into(), rng.below(2), vec![rule[0].clone()]) };
             rec.exec(w, &op.line());
             descr.push(op.line().replace('\t', " "));
-            if rng.chance(1, 10) { descr.push(format!("build_role_links -> {}", rec.exec(w, "e.build"))); }
+            if rng.chance(1, 8) { descr.push(format!("build_role_links -> {}", rec.exec(w, "e.build"))); }
         }
+        if hi % 3 == 0 { descr.push(format!("build_role_links -> {}", rec.exec(w, "e.build"))); }
         let pol = rec.exec(w, "e.pol");
         for l in dec_lists(pol.split(' ').nth(1).unwrap_or("-")) {
             if l[1] == "g" { g1.add(&l[2], &l[3], &Some(l[4].clone())) } else { g2.add(&l[2], &l[3], &None) }
